@@ -29,7 +29,12 @@ func genC13(t *rapid.T) C13Case {
 	if k.Chunked && k.ChunkSize > 4096 {
 		k.ChunkSize = 4096
 	}
-	w := wl.GenWorkload(t, wl.GenParams{ChunkHint: k.ChunkSize, NoLong: true, MaxMsgs: 40, MinChannels: rapid.IntRange(0, 5).Draw(t, "min-channels")})
+	// "many channels": a third of the cases register 16-40 extra channels, most of which any single chunk does not touch
+	many := 0
+	if rapid.IntRange(0, 2).Draw(t, "many-channels?") == 0 {
+		many = rapid.IntRange(16, 40).Draw(t, "many-channels")
+	}
+	w := wl.GenWorkload(t, wl.GenParams{ChunkHint: k.ChunkSize, NoLong: true, MaxMsgs: 40, MinChannels: rapid.IntRange(0, 5).Draw(t, "min-channels"), ManyChannels: many})
 	return C13Case{W: w, K: k, Perm1: rapid.Uint64().Draw(t, "perm1"), Perm2: rapid.Uint64().Draw(t, "perm2"), Procs: rapid.IntRange(0, 3).Draw(t, "procs?") == 0}
 }
 
@@ -119,6 +124,9 @@ func checkC13(c C13Case, st *stats.Collector) error {
 	}
 	if len(c.W.Channels()) >= 4 {
 		classes = append(classes, "channels>=4")
+	}
+	if len(c.W.Channels()) >= 16 {
+		classes = append(classes, "channels>=16")
 	}
 	st.Case(wl.Hash(c), nontrivial, evals, classes...)
 	if nontrivial && st.WantSample() {
